@@ -124,7 +124,8 @@ def gen_program(rnd, pid, size=None, roots=1, generic=True, args=True, ensure_co
         path = rnd.choice(mod_paths)
         raw = fresh_name(path)
         b = {"mods": path, "raw": raw, "name": strip_raw(raw), **loc(), "kind": "plain",
-             "opts": rand_opts(rnd), "cost": rnd.choice([100, 500, 1000, 3000])}
+             "opts": rand_opts(rnd), "cost": rnd.choice([100, 500, 1000, 3000]),
+             "cost_var": rnd.choice([0, 3, 17, 250])}
         if rnd.random() < 0.2:
             custom = rnd.choice(["Custom", "my bench", "α", "n1"])
             if custom not in used[tuple(path)]:
@@ -178,7 +179,7 @@ def gen_program(rnd, pid, size=None, roots=1, generic=True, args=True, ensure_co
             if consts is None:
                 row = []
                 for t in types:
-                    ginst.append({"group": len(groups), "type": t, "cost": rnd.choice([100, 700])})
+                    ginst.append({"group": len(groups), "type": t, "cost": rnd.choice([100, 700]), "cost_var": rnd.choice([0, 9])})
                     row.append(len(ginst) - 1)
                 gen["rows"].append(row)
             else:
